@@ -31,6 +31,12 @@ Theorem c17_checker_sound : C17_checker_sound.
 Proof. exact c17_checker_sound_proof. Qed.
 Print Assumptions c17_checker_sound.
 
+(* IrreversibleBlockNumGate as shipped (constants 0, 1, 2 for the first-streamable rule) loses the
+   irreversible event of the first streamable block when that block is not 2 *)
+Theorem c17_irr_num_unfixed_refuted : C17_irr_num_unfixed_refuted.
+Proof. exact c17_irr_num_unfixed_refuted_proof. Qed.
+Print Assumptions c17_irr_num_unfixed_refuted.
+
 (* IrreversibleBlockIDGate as shipped (no step test) does not ignore non-irreversible events *)
 Theorem c17_irr_id_unfixed_refuted : C17_irr_id_unfixed_refuted.
 Proof. exact c17_irr_id_unfixed_refuted_proof. Qed.
@@ -62,6 +68,20 @@ Example c17_nonvacuous_first :
   fw_of (num_gate_step 2 0 15000%Z) (g_init false) l = l /\
   fw_of (num_gate_step 0 0 15000%Z) (g_init false) l = skipn 1 l.
 Proof. vm_compute. auto. Qed.
+
+(* the same for the irreversible number gate: first streamable block 1, target 0, exclusive gate,
+   New and Irreversible events: opens at "irreversible 1", which is forwarded *)
+Example c17_nonvacuous_first_irr :
+  let l := [mkEv [49;97] 1 1 false; mkEv [50;97] 2 1 false; mkEv [49;97] 1 16 false;
+            mkEv [51;97] 3 1 false; mkEv [50;97] 2 16 false] in
+  first_at (T_irrnum 0) l 2 /\
+  fw_of (irrnum_gate_step 1 0 15000%Z) (g_init false) l = skipn 2 l /\
+  fw_of (irrnum_gate_step_unfixed 0 15000%Z) (g_init false) l = skipn 3 l.
+Proof.
+  split; [|vm_compute; auto].
+  split; [eexists; split; [reflexivity | vm_compute; reflexivity]|].
+  intros j e Hj He. do 2 (destruct j as [|j]; [inversion He; subst; vm_compute; reflexivity|]). lia.
+Qed.
 
 (* hold-off: limit 2, target never reached: the third held block fails, and keeps failing *)
 Example c17_nonvacuous_holdoff :
